@@ -3,6 +3,7 @@ package sym
 import (
 	"fmt"
 	"go/token"
+	"strings"
 
 	"golang.org/x/tools/go/ssa"
 )
@@ -112,6 +113,17 @@ func (r *Run) pick(cur *Thread, curRunnable bool) *Thread {
 		}
 		return en[0]
 	}
+	// A forced switch (the current thread blocked or finished) to a thread whose pending steps are
+	// invisible to the others (fresh goroutine, woken from a private channel, the joining main
+	// thread) needs no choice: that thread reaches a scheduling point before its next visible
+	// operation, where every enabled thread is offered again.
+	if !curRunnable && r.shareUsed {
+		for _, t := range en {
+			if !t.pendVis {
+				return t
+			}
+		}
+	}
 	// concurrency mode: only threads participating in Par (and helper threads they spawned) are
 	// scheduled freely; order the candidates deterministically.
 	if curRunnable && cur.enabled() && r.E.PreemptBound >= 0 && r.preempts >= r.E.PreemptBound {
@@ -126,6 +138,16 @@ func (r *Run) pick(cur *Thread, curRunnable bool) *Thread {
 	return t
 }
 
+// lockYield: acquiring a mutex is a visible operation unless the mutex is thread-local (the harness
+// declared the shared instance with vrt.Share and this mutex is not reachable from it), in which
+// case no other thread can observe or be affected by the acquisition.
+func (th *Thread) lockYield(p Ptr) {
+	if th.R.shareUsed && p.Obj != nil && !p.Obj.Shared {
+		return
+	}
+	th.yield()
+}
+
 // yield is a scheduling point at which the current thread remains runnable.
 func (th *Thread) yield() {
 	r := th.R
@@ -136,8 +158,19 @@ func (th *Thread) yield() {
 	if next == nil || next == th {
 		return
 	}
+	th.pendVis = true
 	next.wake()
 	th.park()
+	th.pendVis = false
+}
+
+// privYield is the scheduling point before an operation on a channel: not needed when the
+// channel is private to the calling thread's family (not reachable from the shared instance).
+func (th *Thread) chanYield(c *ChanObj) {
+	if th.R.shareUsed && c != nil && !c.Shared {
+		return
+	}
+	th.yield()
 }
 
 // block suspends the thread until pred holds.
@@ -148,6 +181,7 @@ func (th *Thread) block(why string, pred func() bool) {
 	}
 	th.waiting = pred
 	th.waitWhy = why
+	th.pendVis = !(strings.HasPrefix(why, "priv ") || why == "Par")
 	next := r.pick(th, false)
 	if next == nil {
 		r.deadlock(th)
@@ -156,6 +190,7 @@ func (th *Thread) block(why string, pred func() bool) {
 	th.park()
 	th.waiting = nil
 	th.waitWhy = ""
+	th.pendVis = false
 }
 
 func (r *Run) deadlock(th *Thread) {
@@ -237,7 +272,8 @@ func (th *Thread) lock(p Ptr, pos token.Pos) {
 		th.targetPanic("nil mutex", pos)
 	}
 	ls := th.R.lockOf(p)
-	th.yield()
+	th.lastFree = nil
+	th.lockYield(p)
 	ls.pending++
 	th.block("Lock "+ls.class, func() bool { return ls.writer == nil && len(ls.readers) == 0 })
 	ls.pending--
@@ -255,11 +291,13 @@ func (th *Thread) unlock(p Ptr, pos token.Pos) {
 		delete(ls.writer.held, p.Key())
 	}
 	ls.writer = nil
+	th.lastFree = nil
 }
 
 func (th *Thread) rlock(p Ptr, pos token.Pos) {
 	ls := th.R.lockOf(p)
-	th.yield()
+	th.lastFree = nil
+	th.lockYield(p)
 	th.block("RLock "+ls.class, func() bool { return ls.writer == nil && ls.pending == 0 })
 	ls.readers[th]++
 	th.held[p.Key()] = 1
@@ -267,6 +305,7 @@ func (th *Thread) rlock(p Ptr, pos token.Pos) {
 
 func (th *Thread) runlock(p Ptr, pos token.Pos) {
 	ls := th.R.lockOf(p)
+	th.lastFree = nil
 	if ls.readers[th] == 0 {
 		// RUnlock by a thread that holds no read lock: if someone else holds one Go allows it;
 		// otherwise fatal.
@@ -335,12 +374,16 @@ func (th *Thread) chanSend(c *ChanObj, v Value, pos token.Pos) {
 	if c == nil {
 		th.block("send on nil chan", func() bool { return false })
 	}
-	th.yield()
+	th.chanYield(c)
 	if c.Closed {
 		th.targetPanic("send on closed channel", pos)
 	}
+	pv := ""
+	if th.R.shareUsed && !c.Shared {
+		pv = "priv "
+	}
 	if c.Cap > 0 {
-		th.block("chan send (full)", func() bool { return len(c.Buf) < c.Cap || c.Closed })
+		th.block(pv+"chan send (full)", func() bool { return len(c.Buf) < c.Cap || c.Closed })
 		if c.Closed {
 			th.targetPanic("send on closed channel", pos)
 		}
@@ -349,7 +392,7 @@ func (th *Thread) chanSend(c *ChanObj, v Value, pos token.Pos) {
 	}
 	req := &sendReq{v: v}
 	c.sendq = append(c.sendq, req)
-	th.block("chan send", func() bool { return req.taken || c.Closed })
+	th.block(pv+"chan send", func() bool { return req.taken || c.Closed })
 	if !req.taken {
 		th.targetPanic("send on closed channel", pos)
 	}
@@ -393,13 +436,17 @@ func (th *Thread) chanRecv(c *ChanObj, pos token.Pos) (Value, bool) {
 	if c == nil {
 		th.block("recv on nil chan", func() bool { return false })
 	}
-	th.yield()
+	th.chanYield(c)
 	if !c.recvReady() {
 		if tm := th.timerForChan(c); tm != nil {
 			th.fire(nil, pos, tm)
 		}
 	}
-	th.block("chan recv", c.recvReady)
+	pv := ""
+	if th.R.shareUsed && !c.Shared {
+		pv = "priv "
+	}
+	th.block(pv+"chan recv", c.recvReady)
 	if v, ok := c.take(); ok {
 		return v, true
 	}
